@@ -596,6 +596,9 @@ def model_request(g, model, text: str, start: str | None, settings: Settings, se
     names = {name: i for i, (name, _, _) in enumerate(g['rules'])}
     tabs = Tables()
     eff = effective_config(model, text, settings, cfg=cfg)
+    if 'keywords' not in settings.extra and (cfg is None or g.get('keywords')):
+        # the reserved words are the ones the grammar text declares (quotes removed), not what the implementation's configuration ended up holding
+        eff.keywords = sorted({k[1:-1] if len(k) >= 2 and k[0] == k[-1] and k[0] in '\'"' else k for k in g.get('keywords', [])})
     opt = model.optimized()       # the code generator optimizes the grammar before walking it too (ngparser_gen.pythongen)
     rules_sx = []
     for name, decorators, e in g['rules']:
